@@ -16,7 +16,7 @@ use trust_runtime::value::{ArrayValue, DateTimeValue, DateValue, Duration, EnumV
 use trust_runtime::RetainSnapshot;
 
 fn scalar(rng: &mut StdRng) -> Value {
-    match rng.gen_range(0..24) {
+    match rng.gen_range(0..29) {
         0 => Value::Bool(rng.gen()),
         1 => Value::SInt([i8::MIN, -1, 0, 1, i8::MAX][rng.gen_range(0..5)]),
         2 => Value::Int([i16::MIN, -1, 0, 7, i16::MAX][rng.gen_range(0..5)]),
@@ -40,6 +40,11 @@ fn scalar(rng: &mut StdRng) -> Value {
         20 => Value::String(["", "a", "pump-7", "äöü €", &"x".repeat(200)][rng.gen_range(0..5)].into()),
         21 => Value::WString(["", "wide 漢字 😀", "w"][rng.gen_range(0..3)].to_string()),
         22 => Value::Char(rng.gen()),
+        23 => Value::WChar(rng.gen()),
+        24 => Value::LDate(trust_runtime::value::LDateValue::new(rng.gen())),
+        25 => Value::LTod(trust_runtime::value::LTimeOfDayValue::new(rng.gen())),
+        26 => Value::Ldt(trust_runtime::value::LDateTimeValue::new(rng.gen())),
+        27 => Value::Null,
         _ => Value::Enum(EnumValue { type_name: "Color".into(), variant_name: ["Red", "Green", ""][rng.gen_range(0..3)].into(), numeric_value: rng.gen_range(-2..3) }),
     }
 }
